@@ -1,6 +1,6 @@
 \* generation (sweep export): every rule list of <= 3 rules x both defaults x the three signals
 CONSTANTS
-  SignalSet <- SignalsAll  MatcherSet <- Matchers5  ScopeSet <- Scopes5
+  SignalSet <- SignalsAll  MatcherSet <- Matchers5  ScopeSet <- Scopes7
   MaxRules = 3  MaxGets = 0  MaxEmits = 0  Dev <- NoDev  Hist = FALSE
 INIT Init
 NEXT Next
